@@ -60,6 +60,10 @@ def strategies(n):
     out['garbage-then-503'] = [{'status': 0, 'mode': 'garbage'}] + [rep(503) for _ in range(n)]
     out['redirect-then-404'] = [rep(302, b'/gone'), rep(404)]
     out['redirect-to-mailto'] = [rep(302, b'mailto:x@y')]
+    # response heads that never end (each block arrives promptly: no read timeout helps)
+    out['endless-1xx'] = [{'status': 100, 'mode': 'endless-1xx'} for _ in range(n)]
+    out['endless-headers'] = [{'status': 200, 'mode': 'endless-headers'} for _ in range(n)]
+    out['redirect-then-endless-1xx'] = [rep(302, b'/next')] + [{'status': 100, 'mode': 'endless-1xx'} for _ in range(n)]
     return out
 
 
@@ -95,6 +99,18 @@ def analyse(replies, nreq):
     return follow, auth
 
 
+HEAD_LIMIT = 32768 + 8192 + 4096      # 'Header too big' at 32 KiB (+ one line of at most the reader's limit), some slack
+
+
+def oracle_head_bytes(ctx, case, res, where):
+    """what the client read of a never-ending response head is bounded"""
+    worst = max(res.get('consumed') or [0])
+    if worst > HEAD_LIMIT + 2000 * len(res['hops']):
+        ctx.fail('unbounded-head', where, case,
+                 'the client read %d bytes of response head(s) on one connection (%d requests in the run): a head that never ends is '
+                 'read without limit (bound: 32 KiB header block, one interim response handed on)' % (worst, len(res['hops'])))
+
+
 def oracle_visit(ctx, case, replies, nreq, max_redirects, where):
     follow, auth = analyse(replies, nreq)
     if follow > max_redirects:
@@ -128,6 +144,7 @@ def check_session(ctx, case):
         ctx.disagree('session', case, {'hops': m_hops}, {'hops': [h[2] for h in res['hops']]})
     if res['outcome'] in ('stalled', 'runaway'):
         ctx.fail('no-termination', 'WebSession', case, 'session %s after %d requests' % (res['outcome'], nreq))
+    oracle_head_bytes(ctx, case, res, 'Stream.read_response')
     follow, auth = oracle_visit(ctx, case, replies, nreq, m, 'WebSession')
     if m_hops is not None and rc.parse_session_reply.counts != (follow, auth):
         ctx.disagree('session', case, {'followUps,authRetries': rc.parse_session_reply.counts}, {'followUps,authRetries': (follow, auth)})
@@ -183,6 +200,7 @@ def check_crawl(ctx, case):
         return res
     if model != real:
         ctx.disagree('crawl', case, model, real)
+    oracle_head_bytes(ctx, case, res, 'Session.start')
     # ---- direct oracle
     k = 0
     with_request = 0
@@ -351,6 +369,9 @@ def run(ctx):
                                                  for m in ('close', 'cutbody', 'garbage', 'resp', 'cutbody', 'close') * 7])):
             check_crawl(ctx, {'stream': 'crawl', 'name': name, 'url': 'http://a.example/x', 'replies': script or strategies(40)[name],
                               'tries': tries, 'max_redirects': 1, 'login': None, 'always_fail': True, 'timeout': 8})
+        for name in ('endless-1xx', 'endless-headers'):
+            check_crawl(ctx, {'stream': 'crawl', 'name': name, 'url': 'http://a.example/x', 'replies': strategies(40)[name],
+                              'tries': 2 if tries == 7 else 3, 'max_redirects': 1, 'login': None, 'always_fail': True, 'timeout': 20})
         for rname in ('robots-reset-forever', 'robots-500-forever', 'robots-alt-reset-500'):
             check_crawl(ctx, {'stream': 'crawl', 'name': 'redirect-then-404', 'url': 'http://a.example/x',
                               'replies': strategies(40)['redirect-then-404'], 'tries': tries, 'max_redirects': 1, 'login': None,
